@@ -1,6 +1,7 @@
 import AtreeProofs.MapInv
 import AtreeProofs.MapLemmas
 import AtreeProofs.Map.Empty
+import AtreeProofs.Map.TreeTop
 /-
   C02 — Ordered map behaves as a dictionary under every operation history.
   PROPERTY THEOREMS: refinement of `OMap` operations to dictionary operations, for an arbitrary
@@ -25,12 +26,18 @@ theorem get_refines (T : Nat) (hT : legalThreshold T = true) (D : DigestFn (r + 
     match dictLookup m.toList k with
     | some v => ∃ k', m.get cfg k = .ok (k', v) ∧ k'.same k = true
     | none => m.get cfg k = .error .keyNotFound := by
-  sorry
+  have hg := OMap.get_spec hT hcfg h hk
+  cases hd : dictLookup m.toList k with
+  | none => rw [hd] at hg; exact hg
+  | some v => rw [hd] at hg; exact ⟨k, hg, MKey.same_self k⟩
 
 theorem has_refines (T : Nat) (hT : legalThreshold T = true) (D : DigestFn (r + 1)) (cfg : MCfg) (m : OMap r)
     (hcfg : CfgOk cfg T m) (h : MapInv T D m) (k : MKey) (hk : KeyOk T (r + 1) D k) :
     m.has cfg k = .ok (dictLookup m.toList k).isSome := by
-  sorry
+  have hg := OMap.get_spec hT hcfg h hk
+  cases hd : dictLookup m.toList k with
+  | none => rw [hd] at hg; simp only [OMap.has, hg]; rfl
+  | some v => rw [hd] at hg; simp only [OMap.has, hg]; rfl
 
 /-- Insert / overwrite: succeeds unless the collision limit refuses a NEW key (C12); returns the
     previous value; afterwards the dictionary is the old one updated at `k`; the count follows;
